@@ -113,6 +113,37 @@ def solve(
         os.unlink(path)
 
 
+def _validate_model(path: str, model: dict[str, Any], timeout: float) -> bool:
+    """Fix every variable of the query to the model's (rational/bool) value and ask z3 for sat."""
+    try:
+        text = open(path).read()
+        extra = []
+        for k, v in model.items():
+            nm = k if all(c.isalnum() or c in "_.$" for c in k) else f"|{k}|"
+            if isinstance(v, bool):
+                extra.append(f"(assert (= {nm} {'true' if v else 'false'}))")
+            elif isinstance(v, Fraction):
+                num = f"(- {abs(v.numerator)})" if v.numerator < 0 else str(v.numerator)
+                extra.append(f"(assert (= {nm} (/ {num}.0 {v.denominator}.0)))")
+            elif isinstance(v, int):
+                extra.append(f"(assert (= {nm} {v if v >= 0 else f'(- {abs(v)})'}))")
+            else:
+                return False
+        idx = text.rfind("(check-sat)")
+        if idx < 0:
+            return False
+        with tempfile.NamedTemporaryFile("w", suffix=".smt2", delete=False, dir=_scratch()) as f:
+            f.write(text[:idx] + "\n".join(extra) + "\n(check-sat)\n")
+            p2 = f.name
+        try:
+            r = _run_z3(p2, "default", timeout)
+        finally:
+            os.unlink(p2)
+        return r.status == "sat"
+    except Exception:  # noqa: BLE001
+        return False
+
+
 def _scratch() -> str:
     d = os.environ.get("VERIF_SCRATCH") or tempfile.gettempdir()
     os.makedirs(d, exist_ok=True)
@@ -137,8 +168,12 @@ def _solve_file(path: str, timeout: float, tactics: tuple[str, ...], use_cvc5: b
             v.detail = "; ".join(f"{a.solver}={a.status}" for a in attempts)
             return v
         if v.status == "sat":
-            v.detail = "; ".join(f"{a.solver}={a.status}" for a in attempts)
-            return v
+            # a cvc5 "sat" on nonlinear arithmetic is believed only if z3 confirms the model (rational values fixed)
+            if v.model and _validate_model(path, v.model, min(10.0, budget[-1])):
+                v.detail = "; ".join(f"{a.solver}={a.status}" for a in attempts) + " (model validated by z3)"
+                return v
+            v.status = "unknown"
+            v.detail = "cvc5 sat not confirmed by z3"
     worst = "timeout" if any(a.status == "timeout" for a in attempts) else "unknown"
     if all(a.status == "error" for a in attempts):
         worst = "error"
